@@ -131,6 +131,8 @@ def gen_elem2(rng, L, be, hist=None):
     return r
 
 
+# operations of the x86 back-end that call gf*_square
+SQUARE_USERS = {"fp_sqr", "fp_sqrt", "gf_sqrt", "gf_xsquare", "fp2_inv", "fp2_is_square", "fp2_sqrt", "fp2_batched_inv"}
 CHEAP1 = ["fp_neg", "fp_sqr"]
 CHEAP2 = ["fp_add", "fp_sub", "fp_mul"]
 EXP1 = ["fp_inv", "fp_sqrt", "fp_half"]
@@ -292,6 +294,11 @@ def fixed_lines(L, be):
               "fp_is_equal 0 0 %x" % L.p, "fp_neg 0 %x" % L.p, "fp_add 0 %x %x" % (2 ** L.B - 1, 2 ** L.B - 1),
               "fp_sub 0 0 %x" % (2 ** L.B - 1), "fp_mul 0 %x %x" % (2 ** L.B - 1, 2 ** L.B - 1), "fp_sqr 0 %x" % (2 ** L.B - 1),
               "fp_half 0 %x" % (2 ** L.B - 1), "gf_legendre 0 0", "gf_legendre 0 %x" % L.p]
+        # witnesses of the lost carry in gf65376_square / gf27500_square (known finding bw:square:lost-carry)
+        if L.lvl == 3:
+            o += ["fp_sqr 0 41000000000000000000000000000000793fa4b0227a69cefffffffffffffffffffffffffffffffffffffffffffffffe"]
+        if L.lvl == 5:
+            o += ["fp_sqr 0 %x" % (2 ** 500 - 0x130)]
     return o
 
 
